@@ -7,7 +7,10 @@
 //	findPath, newRoute, graphParams{graph,additionalEdges,bandwidthHints},
 //	finalHopParams{amt,totalAmt,cltvDelta,records,paymentAddr,metadata},
 //	the bandwidthHints interface (availableChanBandwidth, isCustomHTLCPayment),
-//	newPaymentSession + (*paymentSession).RequestRoute (the "session" entry).
+//	(the "session" entry goes through the exported SessionSource.NewPaymentSession +
+//	PaymentSession.RequestRoute),
+//	ChannelRouter{cfg} (the "router" entry: a router value with just the Config
+//	fields FindRoute reads).
 //
 // Everything else goes through exported API (NewRouteRequest, RestrictParams,
 // RouteHintsToEdges, NewBlindedPaymentPathSet, AdditionalEdge, LightningPayment,
@@ -16,21 +19,26 @@ package routing
 
 import (
 	"context"
+	"errors"
 	"fmt"
 	"math"
 	"sort"
 
 	"github.com/btcsuite/btcd/btcec/v2"
 	"github.com/btcsuite/btcd/btcutil/v2"
+	"github.com/btcsuite/btcd/chainhash/v2"
 	sphinx "github.com/lightningnetwork/lightning-onion"
 	"github.com/lightningnetwork/lnd/fn/v2"
 	graphdb "github.com/lightningnetwork/lnd/graph/db"
 	"github.com/lightningnetwork/lnd/graph/db/models"
+	"github.com/lightningnetwork/lnd/htlcswitch"
 	"github.com/lightningnetwork/lnd/lntypes"
+	"github.com/lightningnetwork/lnd/lnwallet"
 	"github.com/lightningnetwork/lnd/lnwire"
 	paymentsdb "github.com/lightningnetwork/lnd/payments/db"
 	"github.com/lightningnetwork/lnd/record"
 	"github.com/lightningnetwork/lnd/routing/route"
+	"github.com/lightningnetwork/lnd/tlv"
 	"github.com/lightningnetwork/lnd/zpay32"
 )
 
@@ -111,24 +119,24 @@ func (b *c19Blind) salt() int { return 16 * (b.keyBase() - c19BlindBase) }
 // c19Case is one fully specified pathfinding query. It is self-contained: the
 // replay artefact of a violation is exactly this value.
 type c19Case struct {
-	Space  string    `json:"space"`
-	Probe  string    `json:"probe,omitempty"` // how this query was derived from its base case
-	Nodes  int       `json:"nodes"`           // node i has the key derived from byte i+1
-	Chans  []c19Chan `json:"chans"`
-	Hints  []c19Hint `json:"hints,omitempty"`
+	Space string    `json:"space"`
+	Probe string    `json:"probe,omitempty"` // how this query was derived from its base case
+	Nodes int       `json:"nodes"`           // node i has the key derived from byte i+1
+	Chans []c19Chan `json:"chans"`
+	Hints []c19Hint `json:"hints,omitempty"`
 	// RouteHints are invoice route hints; they are converted to additional edges
 	// by lnd's own RouteHintsToEdges (c.Hints are handed to findPath ready-made).
 	RouteHints [][]c19HopHint `json:"route_hints,omitempty"`
 	// Entry selects the code path that is queried: "" = findPath + newRoute with
 	// a request built by NewRouteRequest (ChannelRouter.FindRoute), "session" = a
 	// real paymentSession (newPaymentSession + RequestRoute).
-	Entry string `json:"entry,omitempty"`
-	Blind  *c19Blind `json:"blinded,omitempty"`
+	Entry string    `json:"entry,omitempty"`
+	Blind *c19Blind `json:"blinded,omitempty"`
 	// BlindMore: further paths of the blinded payment path set (Blind is the first).
 	BlindMore []c19Blind `json:"blinded_more,omitempty"`
-	Self   int       `json:"self"`
-	Source int       `json:"source"`
-	Target int       `json:"target"`
+	Self      int        `json:"self"`
+	Source    int        `json:"source"`
+	Target    int        `json:"target"`
 
 	Amt        uint64 `json:"amt_msat"`
 	Height     uint32 `json:"height"`
@@ -142,14 +150,24 @@ type c19Case struct {
 	IgnPairs  [][2]int          `json:"ignored_pairs,omitempty"`
 	BW        map[uint64]uint64 `json:"bandwidth_hints_msat"` // every channel of Self has an entry (as lnd's bandwidth manager)
 	MetaLen   int               `json:"metadata_len,omitempty"`
-	PayAddr   bool              `json:"payment_addr,omitempty"`
-	Prob      float64           `json:"hop_probability"`
+	// CustomLen > 0: the payment carries one custom record for the destination
+	// (type c19CustomType, CustomLen zero bytes): routerrpc's dest_custom_records.
+	CustomLen int     `json:"dest_custom_record_len,omitempty"`
+	PayAddr   bool    `json:"payment_addr,omitempty"`
+	Prob      float64 `json:"hop_probability"`
 
 	// Path-finding configuration (PathFindingConfig): false = lnd's defaults
 	// (MinProbability 0.01, AttemptCost 100 sat, AttemptCostPPM 1000), true = the
 	// struct's zero value for that part (routerrpc.minrtprob=0 / attemptcost=0).
 	MinProb0     bool `json:"min_probability_zero,omitempty"`
 	AttemptCost0 bool `json:"attempt_cost_zero,omitempty"`
+
+	// Links (entry "router" only): state of the switch link of an own channel, by
+	// channel id: "" = online with Bandwidth() = the case's bandwidth hint,
+	// "offline" (no link in the switch), "ineligible" (EligibleToForward false),
+	// "full" (MayAddOutgoingHtlc fails). For the three unusable states the link would
+	// still report an ample Bandwidth(); the oracle's hint (BW) for them is 0.
+	Links map[uint64]string `json:"links,omitempty"`
 
 	// lite (generator -> worker only): this base case gets the base query, the
 	// path-finding configurations and the entry points, not the derived family.
@@ -159,6 +177,7 @@ type c19Case struct {
 const (
 	c19NoFeeLimit  = uint64(lnwire.MaxMilliSatoshi)
 	c19NoCltvLimit = uint32(math.MaxUint32)
+	c19CustomType  = uint64(record.CustomTypeStart + 1)
 	// node index of the first blinded (pseudonymous) hop; never a graph node.
 	c19BlindBase = 200
 )
@@ -196,6 +215,12 @@ func (c *c19Case) clone() *c19Case {
 	}
 	d.IgnNodes = append([]int(nil), c.IgnNodes...)
 	d.IgnPairs = append([][2]int(nil), c.IgnPairs...)
+	if c.Links != nil {
+		d.Links = make(map[uint64]string, len(c.Links))
+		for k, v := range c.Links {
+			d.Links[k] = v
+		}
+	}
 	d.BW = make(map[uint64]uint64, len(c.BW))
 	for k, v := range c.BW {
 		d.BW[k] = v
@@ -529,6 +554,11 @@ func c19Run(c *c19Case) (res c19Result) {
 		meta = make([]byte, c.MetaLen)
 		restr.Metadata = meta
 	}
+	var custom record.CustomSet
+	if c.CustomLen > 0 {
+		custom = record.CustomSet{c19CustomType: make([]byte, c.CustomLen)}
+		restr.DestCustomRecords = custom
+	}
 	var (
 		hints   RouteHints
 		zhints  [][]zpay32.HopHint
@@ -557,7 +587,7 @@ func c19Run(c *c19Case) (res c19Result) {
 		}
 	}
 	if c.Entry == "session" {
-		return c19RunSession(c, restr, zhints, bset, payAddr, meta)
+		return c19RunSession(c, restr, zhints, bset, payAddr, meta, custom)
 	}
 	if c.Blind == nil {
 		if len(zhints) > 0 {
@@ -580,9 +610,12 @@ func c19Run(c *c19Case) (res c19Result) {
 		}
 	}
 	req, err := NewRouteRequest(c19Keys[c.Source], target, lnwire.MilliSatoshi(c.Amt), 0,
-		restr, record.CustomSet(nil), hints, bset, finalCl)
+		restr, custom, hints, bset, finalCl)
 	if err != nil {
 		return c19Result{Kind: "request-error", Err: err.Error()}
+	}
+	if c.Entry == "router" {
+		return c19RunRouter(c, req)
 	}
 	finalHtlcExpiry := int32(c.Height) + int32(req.FinalExpiry)
 	path, p, err := findPath(
@@ -608,6 +641,83 @@ func c19Run(c *c19Case) (res c19Result) {
 	return c19Result{Kind: "route", Route: rt, Prob: p}
 }
 
+// c19Lnk is the switch link of an own channel as the bandwidth manager sees it.
+type c19Lnk struct {
+	htlcswitch.ChannelLink
+	bw     lnwire.MilliSatoshi
+	inelig bool
+	mayAdd error
+}
+
+func (l *c19Lnk) Bandwidth() lnwire.MilliSatoshi               { return l.bw }
+func (l *c19Lnk) EligibleToForward() bool                      { return !l.inelig }
+func (l *c19Lnk) MayAddOutgoingHtlc(lnwire.MilliSatoshi) error { return l.mayAdd }
+func (l *c19Lnk) AuxBandwidth(lnwire.MilliSatoshi, lnwire.ShortChannelID, fn.Option[tlv.Blob],
+	htlcswitch.AuxTrafficShaper) fn.Result[htlcswitch.OptionalBandwidth] {
+	return fn.Ok(htlcswitch.OptionalBandwidth{})
+}
+
+// c19Chain: only the best height is ever asked for.
+type c19Chain struct {
+	lnwallet.BlockChainIO
+	height int32
+}
+
+func (c *c19Chain) GetBestBlock() (*chainhash.Hash, int32, error) {
+	return &chainhash.Hash{}, c.height, nil
+}
+
+// linkQuery is the switch's link lookup (Config.GetLink / SessionSource.GetLink) for
+// the case: every channel with a bandwidth hint has a link whose Bandwidth() is the
+// hint, modified by the case's link states; any other channel has no link.
+func (c *c19Case) linkQuery() func(lnwire.ShortChannelID) (htlcswitch.ChannelLink, error) {
+	const ample = lnwire.MilliSatoshi(1 << 50)
+	return func(cid lnwire.ShortChannelID) (htlcswitch.ChannelLink, error) {
+		id := cid.ToUint64()
+		switch c.Links[id] {
+		case "offline":
+			return nil, htlcswitch.ErrChannelLinkNotFound
+		case "ineligible":
+			return &c19Lnk{bw: ample, inelig: true}, nil
+		case "full":
+			return &c19Lnk{bw: ample, mayAdd: errors.New("no htlc slot left")}, nil
+		}
+		bw, ok := c.BW[id]
+		if !ok {
+			return nil, htlcswitch.ErrChannelLinkNotFound
+		}
+		return &c19Lnk{bw: lnwire.MilliSatoshi(bw)}, nil
+	}
+}
+
+// c19RunRouter asks the real ChannelRouter.FindRoute (entry "router"): the router's
+// own bandwidth manager (newBandwidthManager over the router's SelfNode, fed by a link
+// lookup that reflects the case's bandwidth hints and link states), its own call of
+// findPath (self = SelfNode, source = the request's source) and newRoute. FindRoute
+// attaches neither a payment address nor metadata, so such cases are not defined here.
+func c19RunRouter(c *c19Case, req *RouteRequest) c19Result {
+	if c.PayAddr || c.MetaLen > 0 {
+		return c19Result{Kind: "request-error", Err: "router entry has no payment address / metadata"}
+	}
+	r := &ChannelRouter{cfg: &Config{
+		SelfNode:          c19Keys[c.Self],
+		RoutingGraph:      newC19Graph(c),
+		Chain:             &c19Chain{height: int32(c.Height)},
+		GetLink:           c.linkQuery(),
+		PathFindingConfig: *c.pfCfg(),
+	}}
+	rt, p, err := r.FindRoute(req)
+	switch {
+	case err == errNoPathFound:
+		return c19Result{Kind: "no-path"}
+	case err == errInsufficientBalance:
+		return c19Result{Kind: "insufficient-balance"}
+	case err != nil:
+		return c19Result{Kind: "router-error", Err: err.Error()}
+	}
+	return c19Result{Kind: "route", Route: rt, Prob: p}
+}
+
 // c19MC is the MissionControlQuerier of the session entry: the same probability
 // source as the direct entry, nothing else is ever called by RequestRoute.
 type c19MC struct {
@@ -629,14 +739,15 @@ func (s *c19Sess) GraphSession(_ context.Context, cb func(graph graphdb.NodeTrav
 	return cb(newC19Graph(s.c))
 }
 
-// c19RunSession asks a real payment session for the route: newPaymentSession
-// (which turns the invoice route hints / the blinded path set into additional
-// edges) followed by RequestRoute for the full amount. The LightningPayment is
+// c19RunSession asks a real payment session for the route: SessionSource.NewPaymentSession
+// (newPaymentSession turns the invoice route hints / the blinded path set into additional
+// edges; the session's bandwidth hints come from a real bandwidth manager fed by the
+// case's links) followed by RequestRoute for the full amount. The LightningPayment is
 // filled in the way lnrpc/routerrpc does for an invoice payment: the recipient's
 // final CLTV delta as stated, CltvLimit = maximum relative time lock of the whole
 // route. Only defined for payments sourced at the local node.
 func c19RunSession(c *c19Case, restr *RestrictParams, zhints [][]zpay32.HopHint, bset *BlindedPaymentPathSet,
-	payAddr fn.Option[[32]byte], meta []byte) c19Result {
+	payAddr fn.Option[[32]byte], meta []byte, custom record.CustomSet) c19Result {
 
 	if c.Self != c.Source || len(c.Hints) > 0 {
 		return c19Result{Kind: "request-error", Err: "session entry needs self == source and invoice-style hints"}
@@ -645,7 +756,7 @@ func c19RunSession(c *c19Case, restr *RestrictParams, zhints [][]zpay32.HopHint,
 		Target: c19Keys[c.Target], Amount: lnwire.MilliSatoshi(c.Amt), FeeLimit: lnwire.MilliSatoshi(c.FeeLimit),
 		FinalCLTVDelta: c.FinalDelta, RouteHints: zhints, BlindedPathSet: bset,
 		OutgoingChannelIDs: c.OutChans, LastHop: restr.LastHop, DestFeatures: restr.DestFeatures,
-		PaymentAddr: payAddr, Metadata: meta, MaxParts: 1,
+		PaymentAddr: payAddr, Metadata: meta, DestCustomRecords: custom, MaxParts: 1,
 	}
 	if bset != nil {
 		pay.Target = route.NewVertex(bset.TargetPubKey())
@@ -661,9 +772,17 @@ func c19RunSession(c *c19Case, restr *RestrictParams, zhints [][]zpay32.HopHint,
 	if err := pay.SetPaymentHash(lntypes.Hash{0x19}); err != nil {
 		return c19Result{Kind: "request-error", Err: err.Error()}
 	}
-	ps, err := newPaymentSession(pay, c19Keys[c.Self],
-		func(Graph) (bandwidthHints, error) { return &c19BW{m: c.BW}, nil },
-		&c19Sess{c: c}, &c19MC{prob: restr.ProbabilitySource}, *c.pfCfg())
+	// the session comes from the real SessionSource (the router's payment session
+	// source): it wires the session's bandwidth hints to a real bandwidth manager over
+	// its SourceNode and the switch's link lookup
+	src := &SessionSource{
+		GraphSessionFactory: &c19Sess{c: c},
+		SourceNode:          &models.Node{PubKeyBytes: c19Keys[c.Self]},
+		GetLink:             c.linkQuery(),
+		MissionControl:      &c19MC{prob: restr.ProbabilitySource},
+		PathFindingConfig:   *c.pfCfg(),
+	}
+	ps, err := src.NewPaymentSession(pay, fn.None[tlv.Blob](), fn.None[htlcswitch.AuxTrafficShaper]())
 	if err != nil {
 		return c19Result{Kind: "request-error", Err: err.Error()}
 	}
